@@ -28,6 +28,11 @@ func cmdGen(out string) {
 	for _, c := range atree.VerifConsts() {
 		fmt.Fprintf(&sb, "Definition c_%s : N := %d.\n", c.Name, c.Val)
 	}
+	// the collision limit a process starts with (a package variable, not a constant): `gen` runs in a fresh
+	// process and nothing has configured it yet
+	defLimit := atree.VerifSetMaxCollisionLimitPerDigest(0)
+	atree.VerifSetMaxCollisionLimitPerDigest(defLimit)
+	fmt.Fprintf(&sb, "Definition c_defaultMaxCollisionLimitPerDigest : N := %d.\n", defLimit)
 	writeIfChanged(out+"/Consts.v", sb.String())
 	genSettingsTable(out)
 }
